@@ -302,7 +302,10 @@ def count_tracks_level(ctx, W, cr, ev0, hash_bb, child_level, iter_form=None):
         ceil = bool(classes.get("halve-ceil"))
         incs = classes.get("inc", [])
         if ceil and incs:
-            problems.append("the node counter is both incremented and halved rounding up")
+            # `if n odd { pad; n += 1 }  n = n.div_ceil(2)`: after the increment n is even, so rounding up is plain halving; fine as long as the
+            # increment is the one on the odd edge and comes before the halving
+            if not (len(incs) == 1 and odd_at(incs[0][0]) and cr.reaches(incs[0][0], hb, avoid={oh}) and incs[0][0] not in inner["body"]):
+                problems.append("the node counter is both incremented and halved rounding up")
         if not ceil:
             if len(incs) != 1:
                 problems.append("an odd level is padded but the node counter is %s" % ("never incremented" if not incs else "incremented at %d places" % len(incs)))
